@@ -265,6 +265,28 @@ def r6_prepare_pads_layout(ctx, P, R="C12.R6"):
     ctx.floor(R, "prepare / commit entry points of BumpScope", n, 3)
 
 
+def r7_chunk_for_layout(ctx, P, R="C12.R7"):
+    ctx.rule(R, "a chunk created *for a layout* is sized by ChunkSize::from_capacity(that layout) (header, worst-case padding and "
+                "slack included): in the slow path and in reserve every NonDummyChunk::new / append_for receives the layout "
+                "parameter through from_capacity / for_capacity, never a bare size hint")
+    n = 0
+    for b in P.fn_bodies():
+        if not re.match(r"raw_bump::(RawBump|NonDummyChunk)::<A, S>::(in_another_chunk|reserve|append_for)$", b.path):
+            continue
+        news = b.calls_to(lambda f: f.get("name") == "new" and "NonDummyChunk" in f.get("path", ""))
+        for k, (s_, t) in enumerate(news):
+            n += 1
+            v = b.prov_operand(t["args"][0], s_)
+            via_cap = expr_mentions(v, lambda x: x[0] == "call" and x[1].split("::")[-1] in ("from_capacity", "for_capacity"))
+            via_hint_only = expr_mentions(v, lambda x: x[0] == "call" and x[1].split("::")[-1] == "from_hint") and not via_cap
+            ok = via_cap and not via_hint_only
+            ctx.inst(R, b.path, ok, f"chunk size = {show(v)[:90]}" if ok else
+                     f"the chunk created for the request is sized {show(v)[:90]} - not by from_capacity(layout): header and alignment "
+                     "padding are not budgeted, the request may not fit the fresh chunk (unreachable_unchecked in the slow path)",
+                     where=b.where(s_), site=f"new chunk #{k} sized from the layout")
+    ctx.floor(R, "chunk creations for a layout", n, 2)
+
+
 def r3_growth(ctx, P):
     R = "C12.R3"
     ctx.rule(R, "append_for sizes the new chunk by max(hint for the layout, checked 2 x current size)")
@@ -308,4 +330,5 @@ def run(ctx, progs):
         r3_growth(ctx, P)
         r4_rounding_order(ctx, P)
         r6_prepare_pads_layout(ctx, P)
+        r7_chunk_for_layout(ctx, P)
     ctx.config = None
